@@ -37,7 +37,7 @@ def histgen(rng, oids):
     hg = hist.HistGen(rng, oids, weights=dict(
         insert_one=16, insert_many=12, update_one=26, update_many=8, replace_one=12,
         delete_one=4, delete_many=1, find=0, count=0, distinct=0, create_index=5,
-        drop_index=0, drop_indexes=1, drop=1), ttl=False)
+        drop_index=0, drop_indexes=1, drop=1, bulk_write=9), ttl=False)
     hg.ug.malformed = 0.22
     hg.dollar_values = 0.04
     return hg
@@ -51,8 +51,12 @@ view = histcheck.full_view
 
 
 def twin_history(history, upto):
-    """history[:upto] followed by insert_many at `upto` issued one document at a time"""
+    """history[:upto] followed by the batch at `upto` (insert_many / bulk_write) issued one
+    operation at a time"""
     op = history[upto]
+    if op[0] == 'bulk_write':
+        from props.c15 import as_single
+        return history[:upto] + [as_single(r) for r in op[1]]
     return history[:upto] + [['insert_one', d] for d in op[1]]
 
 
@@ -70,16 +74,20 @@ def oracle(history, steps):
         if k == 'insert_many' and isinstance(st.op[1], list) and st.op[1] and \
                 all(isinstance(d, dict) for d in st.op[1]):
             fails.extend(check_batch(history, steps, i))
+        if k == 'bulk_write' and isinstance(st.op[1], list) and st.op[1]:
+            fails.extend(check_batch(history, steps, i, bulk=True))
         prev = cur
         if any(l not in known_labels for (_, l, _) in fails) or len(fails) > 50:
             break
     return fails
 
 
-def check_batch(history, steps, i):
-    """insert_many ≡ one-at-a-time inserts (ordered: up to the first failure)"""
+def check_batch(history, steps, i, bulk=False):
+    """insert_many / bulk_write ≡ the operations one at a time (ordered: up to the first
+    failure; unordered: every operation that succeeds on its own)"""
     st = steps[i]
     ordered = st.op[2]
+    what = 'bulk_write' if bulk else 'insert_many'
     oids = st.oids
     twin = histcheck.run_history(twin_history(history, i), oids)
     outs = [t.out for t in twin[i:]]
@@ -100,20 +108,20 @@ def check_batch(history, steps, i):
     fails = []
     # generated ObjectIds differ between the two runs only in numbering, which canon renumbers
     if got_state != expected_state:
-        fails.append((i, 'batch-state', 'insert_many(ordered=%s) left %r, one-at-a-time leaves %r'
-                      % (ordered, got_state, expected_state)))
+        fails.append((i, 'batch-state', '%s(ordered=%s) left %r, one-at-a-time leaves %r'
+                      % (what, ordered, got_state, expected_state)))
     if failed_at and all(e in ('DuplicateKeyError', 'WriteError') for _, e in failed_at):
         if st.out[0] != 'err' or st.out[1] != 'BulkWriteError':
             fails.append((i, 'batch-error', 'expected BulkWriteError, got %r' % (st.out,)))
         else:
             det = st.out[2]
             idx = [w.get('index') for w in det.get('writeErrors', [])]
-            if idx != [j for j, _ in failed_at] or det.get('nInserted') != n_ok:
+            if idx != [j for j, _ in failed_at] or (not bulk and det.get('nInserted') != n_ok):
                 fails.append((i, 'batch-details', 'details %r, expected failing positions %r and '
                               'nInserted %d' % (det, failed_at, n_ok)))
     elif not failed_at and st.out[0] == 'err':
-        fails.append((i, 'batch-error', 'insert_many raised %r but every insert succeeds alone'
-                      % (st.out,)))
+        fails.append((i, 'batch-error', '%s raised %r but every operation succeeds alone'
+                      % (what, st.out,)))
     return fails
 
 
